@@ -29,6 +29,9 @@ LAYOUTS = {
     'interleaved': [('a', 'string', False), ('name', 'string', True), ('b', 'int32', False), ('parent', 'string', True), ('c', 'bool', False)],
     'reserved': [('class', 'string', False), ('from', 'string', True), ('name', 'string', False), ('import', 'int32', True)],
     'none': [],
+    # proto3 optional and REQUIRED at once, declared after a non-required field (5th element: proto3 optional)
+    'optional-required': [('name', 'string', True, 1, False), ('update_note', 'string', False, 2, False), ('etag', 'string', True, 3, True),
+                          ('mask', 'string', False, 4, True)],
     'all-required': [('x', 'string', True), ('y', 'string', True)],
     # declaration order differs from field-number order
     'numbers-descending': [('scope', 'string', False, 9), ('name', 'string', True, 5), ('tail', 'string', True, 3), ('extra', 'int32', False, 1)],
@@ -50,7 +53,7 @@ def build(n_services, transport, internal=False, P=P, subsvc=False):
             k += 1
             layout = lay[(ri + si) % len(lay)]
             rq = f'{sname}{rpc[0].upper()}{rpc[1:]}Request'
-            fs = [field(x[0], x[3] if len(x) > 3 else i + 1, x[1], required=x[2]) for i, x in enumerate(LAYOUTS[layout])]
+            fs = [field(x[0], x[3] if len(x) > 3 else i + 1, x[1], required=x[2], optional=(len(x) > 4 and x[4])) for i, x in enumerate(LAYOUTS[layout])]
             msgs.append(message(rq, fs))
             cs, ss = ARITY.get(rpc, (False, False))
             http = None if cs else ('post', f'/v1/{sname.lower()}/{ri}', '*')
@@ -68,6 +71,10 @@ def build(n_services, transport, internal=False, P=P, subsvc=False):
                                                 required=[f_.name for f_ in d.fields if field_behavior_pb2.REQUIRED in
                                                           f_.GetOptions().Extensions[field_behavior_pb2.field_behavior]])
         svcs.append(service(sname, meths))
+    if n_services >= 2:
+        # a service that declares no RPC at all: it still has its clients, and the metadata says so
+        svcs.append(service('Nautili', []))
+        table['Nautili'] = {}
     f = file(P.replace('.', '/') + '/meta.proto', P, messages=msgs, services=svcs)
     files = [f]
     fixup_only = {}
